@@ -13,7 +13,7 @@ from worlds import dlis_phys as D
 
 PROPERTY = 'C01'
 LEVEL = 'exploration'
-RUNS = {'quick': 6000, 'thorough': 120000}
+RUNS = {'quick': 30000, 'thorough': 600000}
 RULE = ('scenario = seeded physical model (SUL, records, segmentation, packing into visible records) built by the '
         'independent producer and read by the real FileRead.iter_logical_records through SimFile; a case is '
         'non-trivial when it hits at least one reach probe (record spanning >=3 visible records, 16 byte segment, '
